@@ -51,4 +51,10 @@ CHECKS = {
     "C10": dict(engine=_A, technique="runtime monitoring: class-level contract on VariableComputation.value_selection + current_value invariant after every scheduler step, all 11 algorithms",
                 text="Held on the executions observed: every monitored value_selection argument and every current_value read was None or equal to a domain value, for all eleven algorithms (per-algorithm call counts in coverage; fewer than 20 calls for one algorithm makes the run inconclusive).",
                 note="Membership by equality; int/str/float domains; noise and damping at defaults and varied."),
+    "C06": dict(engine=_C, technique="runtime monitoring: reference-model oracle on generated calls of the best-response helpers + value_selection contract on real dsa/adsa/dsatuto runs under the deterministic scheduler",
+                text="Held on the executions observed: find_arg_optimal / find_optimal / optimal_cost_value / projection returned exactly the oracle arg-best set and cost (enumeration over harness tables) for magnitudes up to beyond 2^63 and +-inf, with and without own costs; every DSA-family move made with a full neighbour view went to an oracle-optimal value.",
+                note="Numerically ambiguous cases (float cancellation changing the ranking) are skipped and counted; DSA neighbour views are read from the computation at the time of the move."),
+    "C12": dict(engine=_C, technique="runtime monitoring: reference-model oracle (harness tables) on generated set_value_for_assignment / join / projection calls",
+                text="Held on the executions observed: the updated relation differs from the original exactly at the assignment (dict and list form, int/float/huge-int tables) and the original buffer is untouched; join is over the union of scopes and equals u1+u2 on every assignment; projection is over scope minus x and equals min/max over x.",
+                note="Relations over <= 4 variables, domains <= 3; operands: matrix, python function, zero-ary."),
 }
